@@ -217,4 +217,13 @@ theorem e2e_monitors_never_fire : type_of% @GM.Props.C16E2E.monitors_never_fire 
     does (the retry contract monitors of the block driver that `convertCore` has too), never because of `monitorFires`. -/
 theorem e2e_convertf_no_footnote_monitor_outcome : type_of% @GM.Props.C16E2E.convertf_no_footnote_monitor_outcome := @GM.Props.C16E2E.convertf_no_footnote_monitor_outcome
 
+/-- (re-export of `GM.Props.C16E2E.convertf_anchor_loop_terminates`) **A provable part of `BlockNoLoopF`: the ancestor loop of `(*footnoteBlockParser).Close` has enough fuel** (footnote.go:96-100,
+    `anchorLoop` with fuel `len + 1`) for every node whose parent-pointer chain reaches node 0 of a tree-shaped store: the nodes
+    on the chain exist and are pairwise different (node 0 has no parent, so a node has one depth), so there are at most `len`
+    of them. -/
+theorem e2e_convertf_anchor_loop_terminates : type_of% @GM.Props.C16E2E.convertf_anchor_loop_terminates := @GM.Props.C16E2E.convertf_anchor_loop_terminates
+
+/-- (re-export of `GM.Props.C16E2E.convertf_close_no_loop_of_reach`) … hence **`Close` of such a Footnote never answers `loop`** (its other outcomes: normal end, `nil`). -/
+theorem e2e_convertf_close_no_loop_of_reach : type_of% @GM.Props.C16E2E.convertf_close_no_loop_of_reach := @GM.Props.C16E2E.convertf_close_no_loop_of_reach
+
 end GM.Props.C16
